@@ -77,7 +77,7 @@ def gen(rng):
         # a large file of ordinary shape: mostly inert code, one (possibly corrupted) real file's worth of statements.
         # (A file made of thousands of log statements is not: line/column lookup is linear per statement, so such a
         # file takes time quadratic in its size - slow, but neither a hang nor "ordinary shape".)
-        mid, _ops = corpus.mutate(rng, corpus.pick(rng, 1)[0][1], utf8_only=True)
+        mid, _ops = corpus.mutate(rng, corpus.pick(rng, 1)[0][1], utf8_only=True, no_repeat=True)
         half = rng.choice([550000, 700000])
         files["proj/src/big.rs"] = world.make_pad(rng, half).encode() + mid + b"\n" + world.make_pad(rng, half).encode()
         tags.add("large_file")
